@@ -62,7 +62,24 @@ fn operand(ctx: &mut Ctx) -> Dd {
 }
 
 fn operand_f64(ctx: &mut Ctx, a: Dd) -> f64 {
-    let c = ctx.weighted(&[4, 4, 2, 1]);
+    let c = ctx.weighted(&[4, 4, 2, 1, 2]);
+    if c == 4 && a.hi != 0.0 && a.hi.is_finite() {
+        // a second word at / around the overlap thresholds of a.hi (for the checked constructors)
+        ctx.label("arg:overlap-threshold");
+        let e = exponent(a.hi);
+        let k = e - 53 - ctx.range(0, 2);
+        if k >= -1074 {
+            let t = pow2_f64(k);
+            let v = match ctx.below(5) {
+                0 => t,
+                1 => next_up(t),
+                2 => next_down(t),
+                3 => t * 1.5,
+                _ => t * 0.75,
+            };
+            return if ctx.flag() { -v } else { v };
+        }
+    }
     let r = match c {
         0 => f64_exp(ctx, -1000, 999),
         1 => {
@@ -337,7 +354,7 @@ fn c01_program(ctx: &mut Ctx) {
 pub fn c01() -> Property {
     Property {
         id: "C01",
-        rule: "(a) single-call sweep: entry chosen from a table of 98 public entry points producing a TwoFloat (constructors, 25 operator/assignment forms, utility/rounding methods, 13 integer/float conversions, trait routes, all elementary functions, 29 constants); operands valid with hi = 0 or in [2^-1000,2^1000]: whole-range, moderate, pivots of the range switches (±709, -1074..-1020, 1023, k*pi/4, 2^52, 2^53, 32.25 ...) with ulp/2^-j offsets, rounding-function operands, deep-negative exponents for exp/exp2, edge exponents; f64/int/128-bit tie-family arguments. (b) programs: 4 registers and up to 48 instructions over the same table, invariant after every step, a result leaving the operand domain is replaced by a fresh valid value (counted). Oracle: hi finite => lo finite and hi + lo == hi (hardware, cross-checked by exact rounding). non-trivial = finite result with non-zero low word (sweep); a chain of >= 3 steps on operands produced by earlier steps (programs); distinct = distinct (entry, operand bits) / instruction words",
+        rule: "(a) single-call sweep: entry chosen from a table of 100 public entry points producing a TwoFloat (constructors, 25 operator/assignment forms, utility/rounding methods, 13 integer/float conversions, trait routes, all elementary functions, 29 constants); operands valid with hi = 0 or in [2^-1000,2^1000]: whole-range, moderate, pivots of the range switches (±709, -1074..-1020, 1023, k*pi/4, 2^52, 2^53, 32.25 ...) with ulp/2^-j offsets, rounding-function operands, deep-negative exponents for exp/exp2, edge exponents; f64/int/128-bit tie-family arguments. (b) programs: 4 registers and up to 48 instructions over the same table, invariant after every step, a result leaving the operand domain is replaced by a fresh valid value (counted). Oracle: hi finite => lo finite and hi + lo == hi (hardware, cross-checked by exact rounding). non-trivial = finite result with non-zero low word (sweep); a chain of >= 3 steps on operands produced by earlier steps (programs); distinct = distinct (entry, operand bits) / instruction words",
         assumptions: vec!["a panic produces no TwoFloat and is only counted here (totality is claimed by C13-C15, C18)".into()],
         subchecks: vec![
             SubCheck { name: "sweep", kind: Kind::Generated { words: 120, max_items: 0 }, eval: c01_sweep, quick: 3_000_000, thorough: 150_000_000 },
